@@ -20,9 +20,11 @@ import (
 	"github.com/getlantern/bytemap"
 	"github.com/gorilla/mux"
 
+	"github.com/getlantern/zenodb"
 	"github.com/getlantern/zenodb/common"
 	"github.com/getlantern/zenodb/core"
 	"github.com/getlantern/zenodb/planner"
+	"github.com/getlantern/zenodb/rpc"
 	"github.com/getlantern/zenodb/web"
 
 	"verif/mc/cluster"
@@ -45,6 +47,8 @@ type c13Case struct {
 	P      int    `json:"p,omitempty"`
 	Path   string `json:"path,omitempty"`
 	SQL    string `json:"sql,omitempty"`
+	// RPC: the partition handlers answer over real gRPC (rpc.Client.ProcessRemoteQuery against the leader's server)
+	RPC bool `json:"rpc,omitempty"`
 }
 
 func c13Table() dbdrv.TableDef {
@@ -193,6 +197,72 @@ func c13ClusterQueries() []string {
 type c13Cluster struct {
 	cl *cluster.Cluster
 	r0 map[string]*dbdrv.Result
+	// real gRPC server in front of the leader (started on first use)
+	rpcAddr string
+	rpcStop func()
+	// clients of the current case's handlers: a follower keeps its connection open; closing it right after the last
+	// message was queued can cut the stream before the leader has read it
+	rpcClients []rpc.Client
+	rpcMx      sync.Mutex
+}
+
+func (cc *c13Cluster) closeClients() {
+	cc.rpcMx.Lock()
+	for _, rc := range cc.rpcClients {
+		rc.Close()
+	}
+	cc.rpcClients = nil
+	cc.rpcMx.Unlock()
+}
+
+func (cc *c13Cluster) close() {
+	cc.closeClients()
+	if cc.rpcStop != nil {
+		cc.rpcStop()
+	}
+	cc.cl.Close()
+}
+
+// c13RegisterRPC hands every handler of the case to the leader the way a follower process does: one
+// rpc.Client.ProcessRemoteQuery call per handler (each serves one query), then waits until the leader holds them.
+func c13RegisterRPC(c *fw.Ctx, cc *c13Cluster, subset int, mode string, k int, perPartition int) bool {
+	if cc.rpcAddr == "" {
+		addr, stop, err := startRPC(cc.cl.Leaders[0].Z, 0, "pw")
+		if err != nil {
+			c.Incomplete("listen: " + err.Error())
+			return false
+		}
+		cc.rpcAddr, cc.rpcStop = addr, stop
+	}
+	cc.closeClients()
+	for p := 0; p < cc.cl.Cfg.NumPartitions; p++ {
+		cc.cl.DrainHandlers(0, p)
+	}
+	want := map[int]int{}
+	c13EachHandler(cc.cl, subset, mode, k, perPartition, func(p int, h planner.QueryClusterFN) {
+		want[p]++
+		go func() {
+			rc, err := dialRPC(cc.rpcAddr, "pw")
+			if err != nil {
+				return
+			}
+			cc.rpcMx.Lock()
+			cc.rpcClients = append(cc.rpcClients, rc)
+			cc.rpcMx.Unlock()
+			rc.ProcessRemoteQuery(context.Background(), p, h, 3*time.Second)
+		}()
+	})
+	deadline := time.Now().Add(10 * time.Second)
+	for p, n := range want {
+		for zenodb.VerifQueryHandlerCount(cc.cl.Leaders[0].Z, p) < n {
+			if time.Now().After(deadline) {
+				c.Incomplete("handlers did not register over RPC in time")
+				return false
+			}
+			time.Sleep(200 * time.Microsecond)
+		}
+	}
+	return true
 }
 
 func c13StartCluster(c *fw.Ctx, p int) *c13Cluster {
@@ -244,6 +314,13 @@ func c13Register(cl *cluster.Cluster, subset int, mode string, k int, perPartiti
 	for p := 0; p < cl.Cfg.NumPartitions; p++ {
 		cl.DrainHandlers(0, p)
 	}
+	c13EachHandler(cl, subset, mode, k, perPartition, func(p int, h planner.QueryClusterFN) {
+		cl.Leaders[0].Z.RegisterQueryHandler(p, h)
+	})
+}
+
+// c13EachHandler builds the handlers of one case and passes each to register.
+func c13EachHandler(cl *cluster.Cluster, subset int, mode string, k int, perPartition int, register func(p int, h planner.QueryClusterFN)) {
 	for _, f := range cl.Followers {
 		real := f.RealQuery
 		p := f.Partition
@@ -303,7 +380,7 @@ func c13Register(cl *cluster.Cluster, subset int, mode string, k int, perPartiti
 					h = real
 				}
 			}
-			cl.Leaders[0].Z.RegisterQueryHandler(p, h)
+			register(p, h)
 		}
 	}
 }
@@ -311,7 +388,13 @@ func c13Register(cl *cluster.Cluster, subset int, mode string, k int, perPartiti
 func c13CheckCluster(c *fw.Ctx, cc *c13Cluster, cs c13Case) {
 	q := c13ClusterQueries()[cs.Query]
 	c.Eval(1)
-	c13Register(cc.cl, cs.Subset, cs.Mode, cs.K, 2)
+	if cs.RPC {
+		if !c13RegisterRPC(c, cc, cs.Subset, cs.Mode, cs.K, 2) {
+			return
+		}
+	} else {
+		c13Register(cc.cl, cs.Subset, cs.Mode, cs.K, 2)
+	}
 	res, err := cc.cl.QueryLeaderOnce(context.Background(), 0, q, true)
 	r0 := cc.r0[q]
 	told := err != nil
@@ -320,6 +403,9 @@ func c13CheckCluster(c *fw.Ctx, cc *c13Cluster, cs c13Case) {
 	}
 	complete := res != nil && fmt.Sprint(res.Canon()) == fmt.Sprint(r0.Canon())
 	desc := fmt.Sprintf("P=%d partitions %03b %s k=%d: %s", cs.P, cs.Subset, cs.Mode, cs.K, q)
+	if cs.RPC {
+		desc += " (handlers answering over gRPC)"
+	}
 	if cs.Mode == "retriable-then-success" {
 		if !complete || told {
 			c.Violate("C13", "retriable-error-not-retried-to-completion", fmt.Sprintf("%s: err=%v stats=%+v rows %v, expected the complete result %v", desc, err, statsOf(res), canonOf(res), r0.Canon()), cs)
@@ -328,6 +414,15 @@ func c13CheckCluster(c *fw.Ctx, cc *c13Cluster, cs c13Case) {
 		c.Outcome("retried")
 		c.Nontrivial(desc)
 		return
+	}
+	if err == nil && res != nil && res.Stats != nil {
+		// a partition the harness did not touch must not fail; if one does, the run says nothing about the case
+		for _, mp := range res.Stats.MissingPartitions {
+			if cs.Subset&(1<<uint(mp)) == 0 {
+				c.Incomplete(fmt.Sprintf("%s: untouched partition %d reported missing (%+v)", desc, mp, *res.Stats))
+				return
+			}
+		}
 	}
 	if !told && !complete {
 		c.Violate("C13", "partition-failure-not-reported", fmt.Sprintf("%s: no error, statistics report all partitions successful (%+v), but rows differ from the complete result:\n got  %v\n want %v", desc, statsOf(res), canonOf(res), r0.Canon()), cs)
@@ -500,7 +595,7 @@ func init() {
 		ID:          "C13",
 		Level:       "fault_enumeration",
 		NoThreads:   true,
-		Rule:        "ground truth R0 = complete run. (1) operator deadlines: 30 query shapes (filter, group, crosstab, having, sort, offset, limit, IN- and FROM-subqueries, shift, stride, ranges) × deadline already expired or made to expire after row i for every i (the consumer itself sleeps past the deadline: deterministic); (2) cluster, P in {2,3}: every non-empty subset of partitions × {no handler, error before any row, error after k rows for every k, handler blocking past ClusterQueryTimeout, retriable error then success} × 6 pushdown and non-pushdown queries with harness-registered handlers; (3) memory cap: MaxMemoryRatio 1e-12 on a 1 001-key table × 11 query shapes (bare scan, group by key / all / coarser period, filter, having, sort, limit, range, FROM- and IN-subquery) against the uncapped result; (4) HTTP via web.Configure on httptest: {QueryTimeout 1ns, response-size estimate tripping after row K for K<=6, final JSON size check, planning error} × {/immediate, /async, /run} then a second request (cache) and the permalink; oracle per faulted run: error, or partition reported missing, or HTTP status != 200, or the complete result; retriable-then-success must be complete; evaluations = faulted runs, non-trivial = faults that actually removed data or were reported",
+		Rule:        "ground truth R0 = complete run. (1) operator deadlines: 30 query shapes (filter, group, crosstab, having, sort, offset, limit, IN- and FROM-subqueries, shift, stride, ranges) × deadline already expired or made to expire after row i for every i (the consumer itself sleeps past the deadline: deterministic); (2) cluster, P in {2,3}: every non-empty subset of partitions × {no handler, error before any row, error after k rows for every k, handler blocking past ClusterQueryTimeout, retriable error then success} × 6 pushdown and non-pushdown queries with harness-registered handlers, and for P=2 the error modes again with the handlers answering over real gRPC (rpc.Client.ProcessRemoteQuery against the leader's server); (3) memory cap: MaxMemoryRatio 1e-12 on a 1 001-key table × 11 query shapes (bare scan, group by key / all / coarser period, filter, having, sort, limit, range, FROM- and IN-subquery) against the uncapped result; (4) HTTP via web.Configure on httptest: {QueryTimeout 1ns, response-size estimate tripping after row K for K<=6, final JSON size check, planning error} × {/immediate, /async, /run} then a second request (cache) and the permalink; oracle per faulted run: error, or partition reported missing, or HTTP status != 200, or the complete result; retriable-then-success must be complete; evaluations = faulted runs, non-trivial = faults that actually removed data or were reported",
 		Assumptions: []string{"deadlines are exercised by outlasting them, never by racing them", "/run and /async wait 5 s in the web coalescer and are exercised for one query each"},
 		Shards:      func(tier string) int { return 8 },
 		Budget:      func(tier string) time.Duration { return 25 * time.Minute },
@@ -567,7 +662,30 @@ func init() {
 						}
 					}
 				}
-				cc.cl.Close()
+				if p == 2 {
+					// the same failures with the handlers answering over real gRPC (the follower reports its
+					// error on the final message of the stream)
+					for qi := range c13ClusterQueries() {
+						for subset := 1; subset < 1<<uint(p); subset++ {
+							for _, mk := range []struct {
+								mode string
+								k    int
+							}{{"error-before-rows", 0}, {"error-after-k-rows", 1}, {"error-after-k-rows", 2}} {
+								// (no retriable-then-success here: whether an error is retriable is the leader's
+								// judgement about its connection, it does not travel over the wire)
+								if c.Expired() {
+									c.Incomplete("time budget used up")
+									cc.close()
+									return
+								}
+								cs := c13Case{Part: "cluster", Query: qi, Subset: subset, Mode: mk.mode, K: mk.k, P: p, RPC: true}
+								c.Sample("cluster-rpc", cs)
+								c13CheckCluster(c, cc, cs)
+							}
+						}
+					}
+				}
+				cc.close()
 			}
 			// part 4
 			hdb := c13Standalone(c, true, 0)
@@ -630,7 +748,7 @@ func init() {
 				if cc == nil {
 					return
 				}
-				defer cc.cl.Close()
+				defer cc.close()
 				c13CheckCluster(c, cc, cs)
 			case "memory":
 				c13CheckMemory(c)
